@@ -112,6 +112,12 @@ class Life:
         elif x < 0.65:
             self.start(failat=r.choice([0, 2]))      # refused: already started
         elif x < 0.75:
+            nxt = self.t0 + ((self.now - self.t0) // self.interval + 1) * self.interval
+            if self.slow and nxt <= self.now + 2 * self.slow + 1:
+                # with a slow pool a periodic keep-alive would start while the forced one is being answered and still be
+                # unanswered when it returns: watch the clock instead
+                self.sleep(self.r.choice([1, 29, 30, 31, 60]))
+                return
             self.ops.append({"op": "Force"})
             self.since += 1
             self.advance(self.slow)
